@@ -93,6 +93,8 @@ var cannedDBs = []cannedDB{
 	{name: "two-shards", cfg: nCfg{cmp: "default", writers: 1}, ncpu: 2, items: []string{"a1", "b1", "c1", "d1"}, levels: []int{0, 1, 1, 0}},
 	// delta interleaving with a non-empty delta file
 	{name: "delta", cfg: nCfg{cmp: "default", writers: 1, delta: true}, ncpu: 2, items: []string{"a1", "b1", "c1", "d1"}, levels: []int{0, 1, 1, 0}, delta: true},
+	// one shard whose four items XOR to zero: the XOR-of-CRC32 checksum of the shard is 0
+	{name: "xor-zero", cfg: nCfg{cmp: "default", writers: 1}, ncpu: 1, items: []string{"`1", "a1", "b1", "c1"}, levels: []int{0, 1, 0, 1}},
 	// two writers: two delta shard files (more delta shards than loader goroutines at load concurrency 1)
 	{name: "delta-2w", cfg: nCfg{cmp: "default", writers: 2, delta: true}, ncpu: 2, items: []string{"a1", "b1", "c1", "d1"}, levels: []int{0, 1, 1, 0}, delta: true},
 }
